@@ -609,7 +609,7 @@ Qed.
    a line filter one literal, is a line filter / drop value empty, how many groups does `| regexp` name, is the unwrapped label `_entry`).
    The relation on trees is "same erasure" (SqlPiecesSel.erase_sel), carried through the WithId closures of the tree by rewriting the closed
    parts of a closure body: no function extensionality. *)
-From Qryn Require model.LogqlVariant proofs.LogqlEraseProofs model.SqlPiecesCases.
+From Qryn Require model.LogqlVariant proofs.LogqlEraseProofs model.SqlPiecesCases model.LogqlVariantB proofs.LogqlVariantBProofs.
 
 (* every Process method, for every planner object tree, context and planner state (id counter, cached WITHs): variant planner objects give
    trees with the same erasure, variant states and variant successor objects - or both fail *)
@@ -635,6 +635,12 @@ Theorem logql_requests_differing_only_in_values_have_the_same_structure : forall
   Forall2 LogqlVariant.stmt_variant (SqlPiecesCases.script_pieces s finalize c k) (SqlPiecesCases.script_pieces s' finalize c k).
 Proof. exact LogqlEraseProofs.script_pieces_variant. Qed.
 Print Assumptions logql_requests_differing_only_in_values_have_the_same_structure.
+
+(* the hypothesis as a boolean check (model/LogqlVariantB.v), which the tree-level tie evaluates on the ASTs the real LogQL parser produced
+   for every hostile request and its baseline *)
+Theorem logql_variant_check_is_sound : forall s s', LogqlVariantB.script_variantb s s' = true -> LogqlVariant.script_variant s s'.
+Proof. exact LogqlVariantBProofs.script_variantb_sound. Qed.
+Print Assumptions logql_variant_check_is_sound.
 
 (* hypotheses met by a real pair: {job=~"zqxmark"} |= "zqxmark" | json a="b.c" | a = "zqxmark" | drop x="zqxmark" against the same request
    with hostile strings; both statements exist, the first passes pok and carries 16 values *)
